@@ -42,6 +42,8 @@ def search(seed=0, max_calls=6):
                                 bad.append(dict(case, problem="partial solution not loadable: " + out["dyn_error"]))
                             # frames: consecutive multiples of k from 0 (+ possibly one final partial frame), each with its own label
                             steps = [fr["step"] for fr in out["frames"]]
+                            if len(set(steps)) != len(steps) and where == "update":
+                                bad.append(dict(case, problem=f"the frames recorded before the stop are not distinct steps: {steps}"))
                             base = out["frames"][0]["n_updates"] if out["frames"] else 0
                             for fr in out["frames"]:
                                 if fr["n_updates"] - base != fr["step"] and where == "update":
@@ -60,7 +62,7 @@ def replay(unit, obl):
     bad, n = search(0, 5)
     if bad:
         name = (obl or {}).get("name", "")
-        kw = ("temporary", "unexpected files") if ("leak" in name or "exit" in name or "enter" in name) else (("thermalisation",) if "thermalisation" in name or "cancel" in name else ())
+        kw = ("distinct",) if "records_once" in name else ("temporary", "unexpected files") if ("leak" in name or "exit" in name or "enter" in name) else (("thermalisation",) if "thermalisation" in name or "cancel" in name else ())
         pick = next((b for b in bad if any(w in b["problem"] for w in kw)), bad[0])
         return dict(confirmed=True, failing_input=pick, n_failing=len(bad), evaluations=n, tdgl_file=tdgl.__file__,
                     note="faults injected at every call index of short real runs (real h5py files)")
